@@ -54,6 +54,53 @@ theorem advanceString_append (p : Pos) (xs ys : List Char) (u16 : Bool) :
     p.advanceString (xs ++ ys) u16 = (p.advanceString xs u16).advanceString ys u16 := by
   simp [Pos.advanceString, List.foldl_append]
 
+/-- closed form of `SubtractString` on a newline-free string: every rune's size leaves column and offset, the line stays -/
+theorem subtractString_closed (p : Pos) (cs : List Char) (u16 : Bool) (h : '\n' ∉ cs) :
+    p.subtractString cs u16 = .ok ⟨p.line, p.col - sizeSum u16 cs, p.byte - sizeSum u16 cs⟩ := by
+  induction cs generalizing p with
+  | nil => simp [Pos.subtractString, sizeSum]; rfl
+  | cons c cs ih =>
+    have hc : c ≠ '\n' := fun e => h (by simp [e])
+    have hcs : '\n' ∉ cs := fun e => h (by simp [e])
+    have hstep : p.subtractString (c :: cs) u16 =
+        (⟨p.line, p.col - runeSize u16 c, p.byte - runeSize u16 c⟩ : Pos).subtractString cs u16 := by
+      simp only [Pos.subtractString, List.foldlM_cons, Pos.subtract, hc, if_false]
+      rfl
+    rw [hstep, ih _ hcs]
+    simp only [sizeSum, List.map_cons, List.sum_cons]
+    congr 2 <;> omega
+
+/-- closed form of `AdvanceString` on a newline-free string -/
+theorem advanceString_closed (p : Pos) (cs : List Char) (u16 : Bool) (h : '\n' ∉ cs) :
+    p.advanceString cs u16 = ⟨p.line, p.col + sizeSum u16 cs, p.byte + sizeSum u16 cs⟩ := by
+  induction cs generalizing p with
+  | nil => simp [advanceString_nil, sizeSum]
+  | cons c cs ih =>
+    have hc : c ≠ '\n' := fun e => h (by simp [e])
+    have hcs : '\n' ∉ cs := fun e => h (by simp [e])
+    rw [advanceString_cons, ih _ hcs]
+    simp only [Pos.advance, hc, if_false, sizeSum, List.map_cons, List.sum_cons]
+    congr 1 <;> omega
+
+/-- **string round trip** (what `rewind`/`replay` of the parser rely on): advancing over any newline-free string — any
+    length, any runes, either position mode — and subtracting the same string gives back the position, and the other way
+    round; the newline is the only rune on which `SubtractString` fails (`subtract_error_iff`) -/
+theorem subtractString_advanceString (p : Pos) (cs : List Char) (u16 : Bool) (h : '\n' ∉ cs) :
+    (p.advanceString cs u16).subtractString cs u16 = .ok p := by
+  rw [subtractString_closed _ cs u16 h, advanceString_closed p cs u16 h]
+  congr 2 <;> simp
+
+theorem advanceString_subtractString (p q : Pos) (cs : List Char) (u16 : Bool) (h : '\n' ∉ cs)
+    (hq : p.subtractString cs u16 = .ok q) : q.advanceString cs u16 = p := by
+  rw [subtractString_closed p cs u16 h] at hq
+  cases hq
+  rw [advanceString_closed _ cs u16 h]
+  cases p
+  simp
+
+example : (Pos.zero.advanceString "a→𝔘b".toList true).subtractString "a→𝔘b".toList true = .ok Pos.zero :=
+  subtractString_advanceString _ _ _ (by decide)
+
 theorem advance_byte (p : Pos) (c : Char) (u16 : Bool) : (p.advance c u16).byte = p.byte + runeSize u16 c := by
   unfold Pos.advance; split <;> rfl
 
